@@ -461,6 +461,10 @@ class MCMCProp(Prop):
                 e["after"] = s["after"]
             m["steps"].append(e)
         m["n_steps"] = len(reply["steps"])
+        # a run that was observed to its end stops when the number of accepted swaps has passed the convergence limit in force
+        lim = (obs.get("limits_used") or [None])[0]
+        if obs.get("final") is not None and not obs.get("exhausted") and "raised" not in obs and isinstance(lim, int):
+            m["accepted_at_end"] = lim + 1          # `while convergence_count <= limit`: the loop of this code admits limit + 1 swaps
         return m
 
     def project(self, case, obs):
@@ -478,6 +482,9 @@ class MCMCProp(Prop):
                     e["after"] = a
             p["steps"].append(e)
         p["n_steps"] = len(obs["calls"])
+        lim = (obs.get("limits_used") or [None])[0]
+        if obs.get("final") is not None and not obs.get("exhausted") and "raised" not in obs and isinstance(lim, int):
+            p["accepted_at_end"] = sum(1 for c in obs["calls"] if c.get("result"))
         return p
 
     # ------------------------------------------------------------------ oracle clauses
